@@ -479,7 +479,7 @@ class RaftNode(Entity):
                 "term": self._current_term,
                 "success": True,
                 "from": self.name,
-                "match_index": self._log.last_index,
+                "match_index": prev_log_index + len(entries),
             },
             daemon=True,
         )
